@@ -34,6 +34,26 @@ def main():
     fs = fsim.SimFS(fsim.ROOT)
     fs.install()
     out = []
+    if job.get("write_items"):
+        # writer process of a two-process restart: build, evaluate, dump, hand the bytes back
+        files = []
+        try:
+            for k, (desc, fmt) in enumerate(job["write_items"]):
+                obj, kind = fsim.make_obj(desc)
+                ref = fsim.EVAL[kind](obj, job["probe_seed"]) + "|" + fsim.type_sig(obj, kind)
+                path = "%s/w%d%s" % (fsim.ROOT, k, fsim.EXT[fmt])
+                fsim.do_dump(obj, kind, fmt, path)
+                files.append({"path": path, "kind": kind, "fmt": fmt, "ref": ref, "b64": base64.b64encode(fs.read_bytes(path)).decode()})
+        finally:
+            fs.uninstall()
+        sys.stdout.write("\n" + json.dumps({"files": files}) + "\n")
+        return
+    # a reader process has a life of its own: objects of the same kinds built and used before
+    # the files are loaded, and used again afterwards
+    pre = []
+    for desc in job.get("pre_items", []):
+        obj, kind = fsim.make_obj(desc)
+        pre.append((obj, kind, fsim.EVAL[kind](obj, job["probe_seed"])))
     try:
         for f in job["files"]:
             fs.write_bytes(f["path"], base64.b64decode(f["b64"]))
@@ -44,7 +64,8 @@ def main():
                 out.append("raise:" + type(e).__name__ + ":" + str(e)[:100])
     finally:
         fs.uninstall()
-    sys.stdout.write("\n" + json.dumps({"results": out}) + "\n")
+    pre_changed = [i for i, (obj, kind, d0) in enumerate(pre) if fsim.EVAL[kind](obj, job["probe_seed"]) != d0]
+    sys.stdout.write("\n" + json.dumps({"results": out, "pre_changed": pre_changed, "pre": len(pre)}) + "\n")
 
 
 if __name__ == "__main__":
